@@ -14,6 +14,7 @@ from habutax import inputs as hi
 from habutax.forms import available_forms
 
 ADV_TEXT = "Ann (Lee) O'Neil \\ Jr"
+ADV_TEXT2 = "#4B ; rear = 5 : [x]"
 
 
 # --------------------------------------------------------------------------
@@ -57,8 +58,8 @@ class Base(object):
             return Base(self.name, self.requested, o, self.dense, self.years)
         return self
 
-    def answer(self, inp):
-        n = inp.name()
+    def answer(self, inp, name=None):
+        n = name or inp.name()
         if n in self._exact:
             return self._exact[n]
         for p, v in self._pat:
@@ -197,7 +198,7 @@ def alphabet(inp, pair=False):
     if isinstance(inp, (hi.SSNInput, hi.RegexInput)):
         return []
     if isinstance(inp, hi.StringInput):
-        return ['x', ADV_TEXT] if not pair else []
+        return ['x', ADV_TEXT, ADV_TEXT2] if not pair else []
     return []
 
 
@@ -207,17 +208,27 @@ class Node(object):
     __slots__ = ('assign', 'asked', 'oclass', 'viols', 'counters', 'extra')
 
 
-def run_return(year, base, assign, schedule=None, keep_solver=False, instrument=True, requested=None):
-    """one execution; returns (Result, asked) where asked = [(name, answer, alternatives)]"""
+def run_return(year, base, assign, schedule=None, keep_solver=False, instrument=True, requested=None,
+               rename=None, bump=None):
+    """one execution; returns (Result, asked) where asked = [(name, answer, alternatives)]
+    rename: dict form-instance -> form-instance whose answers it receives (instance renumbering)
+    bump: dict input name -> amount added to its (numeric) answer"""
     asked = []
     pair = len(assign) >= 1
 
     def answer(missing, needed_by):
         n = missing.name()
-        if n in assign:
-            a = assign[n]
+        src = n
+        if rename:
+            sec, key = n.split('.')
+            if sec in rename:
+                src = f'{rename[sec]}.{key}'
+        if src in assign:
+            a = assign[src]
         else:
-            a = base.answer(missing)
+            a = base.answer(missing, name=src)
+        if bump and n in bump:
+            a = repr(round(float(a or 0) + bump[n], 2))
         alts = [x for x in alphabet(missing, pair=pair) if x != a] if n not in assign else []
         asked.append((n, a, alts))
         return a
